@@ -37,7 +37,9 @@ CONSTANTS Methods, Versions, Inms,      \* configurations explored
           Statuses,                     \* arguments of set_status
           HdrVals, ClVals,              \* digit values for X-A / explicit Content-Length
           ChunkIds,                     \* chunks offered to write / finish
-          MaxBody, MaxHdr               \* state constraint only
+          MaxBody, MaxHdr,              \* state constraint only
+          Prune                         \* TRUE: Next omits calls that cannot change the obligation any more
+                                        \* (status / header calls after the commit); FALSE for generation
 
 NoCL == 999999
 N_x_a == <<120, 45, 97>>
@@ -161,16 +163,19 @@ End ==
     /\ UNCHANGED <<cfg, status, hdr>>
     /\ step' = Obs("end", <<>>)
 
-Next ==
-    \/ \E s \in Statuses : SetStatus(s)
-    \/ \E v \in HdrVals : SetHeaderB(N_x_a, Digit(v))
-    \/ \E v \in ClVals : SetHeaderB(N_content_length, Digit(v))
-    \/ \E v \in HdrVals : AddHeaderB(N_x_a, Digit(v))
-    \/ ClearHeaderB(N_x_a)
-    \/ \E k \in ChunkIds : WriteB(Chunk(k))
-    \/ Flush
-    \/ \E k \in ChunkIds \cup {0} : FinishB(Chunk(k))
-    \/ End
+Live == Prune => ~hw
+LSetStatus(s) == Live /\ SetStatus(s)
+LSetHeader(n, v) == Live /\ SetHeaderB(n, v)
+LAddHeader(n, v) == Live /\ AddHeaderB(n, v)
+LClearHeader(n) == Live /\ ClearHeaderB(n)
+ASetStatus == \E s \in Statuses : LSetStatus(s)
+ASetHeader == \E v \in HdrVals : LSetHeader(N_x_a, Digit(v))
+ASetLength == \E v \in ClVals : LSetHeader(N_content_length, Digit(v))
+AAddHeader == \E v \in HdrVals : LAddHeader(N_x_a, Digit(v))
+AClearHeader == LClearHeader(N_x_a)
+AWrite == \E k \in ChunkIds : WriteB(Chunk(k))
+AFinish == \E k \in ChunkIds \cup {0} : FinishB(Chunk(k))
+Next == ASetStatus \/ ASetHeader \/ ASetLength \/ AAddHeader \/ AClearHeader \/ AWrite \/ Flush \/ AFinish \/ End
 
 Spec == InitState /\ [][Next]_<<vars, step>>
 
@@ -226,13 +231,13 @@ RefWire(f, body) ==
 Completed == outcome = "complete"
 (* every legitimate serialization of a complete obligation is accepted *)
 RefAccepted ==
-    Completed =>
+    Completed /\ run = "ended" =>
         /\ (com.ecl = NoCL \/ NoBody \/ com.ecl = Len(sent)) => Conforms(ParseResp(RefWire("cl", ExpBody), FALSE, IsHead), FALSE)
         /\ ~NoBody /\ com.ecl = NoCL => Conforms(ParseResp(RefWire("chunked", ExpBody), FALSE, IsHead), FALSE)
         /\ com.ecl = NoCL => Conforms(ParseResp(RefWire("close", ExpBody), TRUE, IsHead), TRUE)
 (* ... and the classic mis-framings are refused *)
 MisframingRefused ==
-    Completed =>
+    Completed /\ run = "ended" =>
         /\ ~NoBody /\ com.ecl = NoCL => ~Conforms(ParseResp(RefWire("close", ExpBody), FALSE, IsHead), FALSE)      \* undelimited and left open
         /\ ~Conforms(ParseResp(RefWire("cl", ExpBody \o <<120>>), FALSE, IsHead), FALSE)     \* a byte beyond the message
         /\ ~NoBody => ~Conforms(ParseResp(RefWire("chunked", ExpBody \o <<120>>), FALSE, IsHead), FALSE)
